@@ -14,6 +14,7 @@ from vlib.core import Outcome, fail, sut, is_raised
 from vlib import typegen as tg
 from vlib import mat, layout, assign, cbuild
 from vlib import placement as pl
+from checks import c01
 
 ID = "C08"
 LEVEL = "exploration"
@@ -86,7 +87,25 @@ def cases(draw, tier):
             ["ar", {"k": "array", "name": None, "item": {"k": "ref", "to": inner}, "shape": [draw(st.sampled_from([2, None]))], "order": [0]}],
             ["x", {"k": "scalar", "t": "Float64"}],
         ]}
-    value = tg._draw_value(draw, spec, cfg)
+    special = draw(st.integers(0, 3)) == 0
+    if draw(st.integers(0, 9)) == 0:
+        # by construction: items whose reference field declares a non-null default, in arrays created by length
+        tgt = draw(st.sampled_from([
+            {"k": "array", "name": None, "item": {"k": "scalar", "t": "Float64"}, "shape": [None], "order": [0]},
+            {"k": "struct", "name": "DT", "fields": [["p", {"k": "scalar", "t": "Int16"}], ["q", {"k": "scalar", "t": "Float64"}]]},
+        ]))
+        item = {"k": "struct", "name": "DN", "fields": [["a", {"k": "scalar", "t": "Int32"}],
+                                                         ["r", {"k": "ref", "to": tgt, "default": tg._draw_value(draw, tgt, cfg)}]]}
+        spec = {"k": "struct", "name": "DW", "fields": [
+            ["x", {"k": "scalar", "t": "Float64"}],
+            ["items", {"k": "array", "name": None, "item": item, "shape": [draw(st.sampled_from([None, 3]))], "order": [0]}],
+            ["one", item]]}
+        special = True
+    # one case in four: arrays given by length, fields omitted (references with a declared default get a referent of their own)
+    value = c01.special_values(draw, spec, cfg, "root") if special else tg._draw_value(draw, spec, cfg)
+    if spec.get("name") == "DW":
+        value["items"] = {"$dims": [draw(st.integers(2, 4))] if spec["fields"][1][1]["shape"][0] is None else []}
+        value["one"]["r"] = {"$omit": 1}
     sites = type_sites(spec)
     nops = draw(st.integers(1, 40 if tier == "thorough" else 14))
     ops = []
@@ -122,7 +141,7 @@ def cases(draw, tier):
         "type": spec, "value": value, "ops": ops,
         "buf": {"kind": draw(st.sampled_from(["numpy", "numpy", "bytearray"])), "cap": draw(st.sampled_from([0, 64, 256, 1024])),
                 "align": draw(st.sampled_from([1, 8, 16])), "grow_step": draw(st.one_of(st.none(), st.integers(1, 128)))},
-        "capi": draw(st.integers(0, 5)) == 0,
+        "capi": draw(st.integers(0, 5)) == 0, "special": special,
     }
 
 
@@ -261,7 +280,17 @@ def run_case(case):
     holder = sut(mat.construct, node, case["value"], mat.Forms([0]), mat.Env(A, ctx), _buffer=A)
     if is_raised(holder):
         return fail("construct_raised", f"{holder}", holder.key, labels)
-    model = copy.deepcopy(case["value"])
+    model = mat.expected_value(spec, copy.deepcopy(case["value"]))
+    if case.get("special"):
+        # by-length arrays / omitted fields leave some scalars unconstrained: pin them to what is read (after comparing)
+        got0 = sut(mat.walk, holder, node)
+        if is_raised(got0):
+            return fail("read_raised", f"initial: holder: {got0}", got0.key, labels)
+        d0 = tg.first_diff(spec, model, got0)
+        if d0:
+            return fail("holder_value", f"initial: {d0}", "initial", labels)
+        model = got0
+        labels.add("holder_built_with_lengths_or_omitted_fields")
     pool = []  # dicts: obj, node, model, where, path_in_parent(optional)
     snodes = site_nodes(node)
     # physical slot -> (parent model object kept alive, pool index, nested path).  A slot is identified by the IDENTITY of
